@@ -73,51 +73,61 @@ def _shift_variant(dest):
             fh.write('# shifted\n#\n#\n' + src.replace('\n\n\n', '\n\n\n\n'))
 
 
+def _task(args):
+    """One scratch-copy evaluation (runs in a worker process)."""
+    import importlib
+    prop, repo_root, work, kind, name, payload = args
+    mod = importlib.import_module(f"vstatic.rules.{prop.lower()}")
+    dest = tempfile.mkdtemp(prefix='t-', dir=work)
+    try:
+        _copy_repo(repo_root, dest)
+        if kind == 'patch':
+            if not _apply(payload, dest):
+                return kind, name, None, 'patch does not apply'
+        elif payload == 'unparse':
+            _unparse_variant(dest)
+        elif payload == 'shift':
+            _shift_variant(dest)
+        rc, out = _run(prop, mod, dest)
+        return kind, name, rc, out
+    finally:
+        shutil.rmtree(dest, ignore_errors=True)
+
+
 def run(prop, mod, repo_root, seed, evidence_dir=None):
+    from concurrent.futures import ProcessPoolExecutor
     tmpbase = os.environ.get('TMPDIR') or '/tmp'
     work = tempfile.mkdtemp(prefix=f'vstatic-selftest-{prop}-', dir=tmpbase)
     killed, survived, skipped = [], [], []
     silent, alarmed = [], []
+    tasks = []
+    for d in sorted(glob.glob(os.path.join(VERIF, 'seeded', '*'))):
+        mp = os.path.join(d, 'meta.json')
+        if not os.path.exists(mp):
+            continue
+        meta = json.load(open(mp))
+        if prop in (meta.get('detected_by') or []):
+            tasks.append((prop, repo_root, work, 'patch', 'M:' + os.path.basename(d), os.path.join(d, 'patch.diff')))
+    tasks.append((prop, repo_root, work, 'variant', 'B:ast.unparse of every module', 'unparse'))
+    tasks.append((prop, repo_root, work, 'variant', 'B:line shift', 'shift'))
+    for d in sorted(glob.glob(os.path.join(VERIF, 'seeded_benign', '*'))):
+        tasks.append((prop, repo_root, work, 'patch', 'B:' + os.path.basename(d), os.path.join(d, 'patch.diff')))
     try:
-        # (a) seeded breakages for this property
-        for d in sorted(glob.glob(os.path.join(VERIF, 'seeded', '*'))):
-            mp = os.path.join(d, 'meta.json')
-            if not os.path.exists(mp):
-                continue
-            meta = json.load(open(mp))
-            det = meta.get('detected_by') or []
-            if prop not in det:
-                continue
-            dest = tempfile.mkdtemp(prefix='m-', dir=work)
-            _copy_repo(repo_root, dest)
-            if not _apply(os.path.join(d, 'patch.diff'), dest):
-                skipped.append(os.path.basename(d))
-                shutil.rmtree(dest, ignore_errors=True)
-                continue
-            rc, out = _run(prop, mod, dest)
-            (killed if rc == 1 else survived).append(os.path.basename(d))
-            shutil.rmtree(dest, ignore_errors=True)
-        # (b) benign variants
-        variants = [('ast.unparse of every module', _unparse_variant), ('line shift', _shift_variant)]
-        for name, fn in variants:
-            dest = tempfile.mkdtemp(prefix='b-', dir=work)
-            _copy_repo(repo_root, dest)
-            fn(dest)
-            rc, out = _run(prop, mod, dest)
-            (silent if rc == 0 else alarmed).append(name if rc == 0 else f"{name}: rc={rc} {out.strip().splitlines()[:3]}")
-            shutil.rmtree(dest, ignore_errors=True)
-        for d in sorted(glob.glob(os.path.join(VERIF, 'seeded_benign', '*'))):
-            dest = tempfile.mkdtemp(prefix='b-', dir=work)
-            _copy_repo(repo_root, dest)
-            if not _apply(os.path.join(d, 'patch.diff'), dest):
-                shutil.rmtree(dest, ignore_errors=True)
-                continue
-            rc, out = _run(prop, mod, dest)
-            nm = os.path.basename(d)
-            (silent if rc == 0 else alarmed).append(nm if rc == 0 else f"{nm}: rc={rc} {out.strip().splitlines()[:3]}")
-            shutil.rmtree(dest, ignore_errors=True)
+        workers = min(14, max(1, (os.cpu_count() or 2) - 2))
+        with ProcessPoolExecutor(workers) as ex:
+            results = list(ex.map(_task, tasks))
     finally:
         shutil.rmtree(work, ignore_errors=True)
+    for kind, name, rc, out in results:
+        tag, nm = name.split(':', 1)
+        if rc is None:
+            if tag == 'M':
+                skipped.append(nm)
+            continue
+        if tag == 'M':
+            (killed if rc == 1 else survived).append(nm)
+        else:
+            (silent if rc == 0 else alarmed).append(nm if rc == 0 else f"{nm}: rc={rc} {out.strip().splitlines()[:3]}")
 
     # (c) trusted-base check: the engine's exact matcher agrees with re on
     # words sampled from the automata of the regexes this property consults
